@@ -61,6 +61,11 @@ type node struct {
 	pm      *network.ProtocolManager
 	disc    *p2p.DiscoverManager
 	genesis *types.Block
+
+	// the protocol manager's own out-of-order caches (unexported fields, read back through their exported accessors)
+	bcache *network.BlockCache
+	ccache *network.ConfirmCache
+	seq    *seqState // sequence layer: the blocks of the universe built so far
 }
 
 func newNode(dir string) (*node, error) {
@@ -95,6 +100,9 @@ func newNode(dir string) (*node, error) {
 	var self p2p.NodeID
 	copy(self[:], deputynode.GetSelfNodeID())
 	n.pm = network.NewProtocolManager(chainID, self, bc, dm, pool, bc.TxGuard(), n.disc, 20, params.VersionUint(), dir)
+	if err := n.bindCaches(); err != nil {
+		return nil, err
+	}
 	n.pm.Start()
 	// p2p.Server.run: a closed peer is announced on SrvDeletePeer and forwarded to the protocol manager as DeletePeer
 	del := make(chan p2p.IPeer, 1)
